@@ -100,7 +100,7 @@ pub fn run(rep: &mut Report) {
     let cfgs = configs(thorough);
     let n = cfgs.len() as f64;
     for cfg in cfgs {
-        let lim = if thorough { Limits::new(12, 40_000, (1500.0 / n).max(20.0)) } else { Limits::new(8, 1_500, 4.0) };
+        let lim = if thorough { Limits::new(12, 40_000, (1500.0 / n).max(20.0)) } else { Limits::new(8, 1_200, 4.0) };
         run_cfg::<u16>(rep, cfg, lim, false);
     }
     // deep session histories with peer-chosen limits that shrink between connections (no raw stimuli): the
